@@ -93,3 +93,16 @@ def run_main(mp, argv, cwd, scratch):
         finally:
             os.chdir(old)
     return ProgramRun(code, open(po, errors='replace').read(), open(pe, errors='replace').read(), exc)
+
+
+def run_cli(argv, cwd, tmpdir, timeout=120):
+    """Run the real entry point (src/default-main-program-runner.py) as a process: what a user runs.  Sandboxes go under tmpdir."""
+    import subprocess
+    env = dict(os.environ, TMPDIR=tmpdir, PYTHONWARNINGS='ignore', PYTHONPATH=REPO + '/src', PYTHONHASHSEED='0',
+               PYTHONDONTWRITEBYTECODE='1')
+    try:
+        p = subprocess.run([sys.executable, REPO + '/src/default-main-program-runner.py'] + list(argv), cwd=cwd, env=env,
+                           stdin=subprocess.DEVNULL, stdout=subprocess.PIPE, stderr=subprocess.PIPE, timeout=timeout)
+    except subprocess.TimeoutExpired as ex:
+        return ProgramRun(None, '', '', ex)
+    return ProgramRun(p.returncode, p.stdout.decode(errors='replace'), p.stderr.decode(errors='replace'), None)
